@@ -31,7 +31,8 @@ func (p *Parser) findConvergenEntries() ([]*intfEntry, error) {
 		if !ok {
 			continue
 		}
-		if p.srcPath != p.fset.Position(obj.Pos()).Filename {
+		// The file the declaration is really in: a //line directive must not move it elsewhere.
+		if p.srcPath != p.fset.PositionFor(obj.Pos(), false).Filename {
 			// Skip other than the entry file.
 			continue
 		}
